@@ -1222,6 +1222,21 @@ val for_continues : z -> z -> z -> bool
 
 val run_body : unit m -> bool m
 
+val call_body : z -> n -> bool -> unit m -> unit m
+
+val ped_guard : bool -> token -> unit m
+
+val eval_bounds : (node -> result m) -> n -> node list -> z -> dim list m
+
+val eval_indices :
+  (node -> result m) -> n -> node list -> dim list -> z list m
+
+val repeatM : nat -> 'a1 m -> 'a1 list m
+
+val if_comp :
+  (node -> result m) -> (node list -> unit m) -> (node option * node list) ->
+  result m option * unit m
+
 val tick : limits -> token -> n -> unit m
 
 val cond_bool : token -> n -> result m -> bool m
@@ -1359,6 +1374,8 @@ val builtin_sig : str -> (dkind list * dkind) option
 val next_rand : z m
 
 val run_builtin : str -> n -> payload list -> result m
+
+val builtin_args : token -> n -> dkind list -> result list -> payload list m
 
 val hfuel : nat
 
